@@ -163,7 +163,8 @@ def run(ctx):
                             ctx.count("fields_expected", len(expected_paths))
                             no_call = set(tuple(p) for p, k in ref[2] if k == "argument")
                             ctx.count("fields_without_resolver_call", len(no_call))
-                            problems += instr_mon.check_fields(events, expected_paths, n_mw, no_call_paths=no_call)
+                            problems += instr_mon.check_fields(events, expected_paths, n_mw, no_call_paths=no_call,
+                                                               aborted=ref[3].type_failures)
                             ctx.count("middleware_traversals", sum(1 for e in events if e["ev"] == "mw"))
                         for k, detail in problems[:2]:
                             ctx.violation("%s:%s" % (k, "deferred" if config in exec_mon.DEFERRED else config), w, detail)
